@@ -23,22 +23,32 @@ Definition room (s : pstate) : Prop := Phi s + 4 <= InvalidIndex.
 Definition has_fl (af : N) : Prop := exists k, k < 8 /\ argType af k = aml_pArgTypeFieldList.
 
 (** ---- the specifications ---- *)
+
+(** the scope stack grew by at most [o] more entries than the pkgEnd stack *)
+Definition slack (s s' : pstate) (o : nat) : Prop :=
+  (length (p_scopeStack s') + length (p_pkgEndStack s) <= length (p_scopeStack s) + length (p_pkgEndStack s') + o)%nat.
+
+(** the opcode-table row [ii] belongs to an opcode that nextOpcode accepts *)
+Definition ext_idx (ii : N) : Prop :=
+  exists op, op <= 0x1fe /\ opcodeTableIndex op false = Some ii /\ ii <> aml_badOpcode.
+
 Definition S_name (fuel : nat) : Prop := forall s g,
   FI s g -> p_scopeStack s <> [] -> room s ->
   spec (N.of_nat fuel < 1) (parseNamePathOrMethodCall fuel) s g (fun res s' _ =>
-    Phi s' <= Phi s + 2 /\ (res = ROk -> Phi s' <= Phi s /\ r_offset (p_r s) < r_offset (p_r s'))).
+    Phi s' <= Phi s + 2 /\ (res = ROk -> Phi s' <= Phi s /\ r_offset (p_r s) < r_offset (p_r s')) /\ slack s s' 0).
 
 Definition S_next (fuel : nat) : Prop := forall s g,
   FI s g -> p_scopeStack s <> [] -> room s ->
-  spec (N.of_nat fuel < 16 * rem s + 2) (parseNextObject fuel) s g (fun res s' _ =>
-    Phi s' <= Phi s + 2 /\ (res = ROk -> Phi s' <= Phi s /\ r_offset (p_r s) < r_offset (p_r s'))).
+  spec (N.of_nat fuel < 8 * rem s + 2) (parseNextObject fuel) s g (fun res s' _ =>
+    Phi s' <= Phi s + 2 /\ (res = ROk -> Phi s' <= Phi s /\ r_offset (p_r s) < r_offset (p_r s')) /\ slack s s' 0).
 
 Definition S_objargs (fuel : nat) : Prop := forall curObj s g,
   FI s g -> glive g curObj -> room s ->
   (forall co op fl af, tget (p_tree s) curObj = Some co -> opInfo (o_infoIndex co) = Some (op, fl, af) ->
                        has_fl af -> has_parent g curObj) ->
-  spec (N.of_nat fuel < 16 * rem s + 12) (parseObjectArgs fuel curObj) s g (fun res s' _ =>
-    Phi s' <= Phi s + 2 /\ (res = ROk -> Phi s' <= Phi s + 1) /\ res <> RShort).
+  (forall co, tget (p_tree s) curObj = Some co -> ext_idx (o_infoIndex co)) ->
+  spec (N.of_nat fuel < 8 * rem s + 4) (parseObjectArgs fuel curObj) s g (fun res s' _ =>
+    Phi s' <= Phi s + 2 /\ (res = ROk -> Phi s' <= Phi s + 1) /\ res <> RShort /\ slack s s' 0).
 
 Definition shielded (af argIndex : N) : Prop :=
   forall j, argIndex <= j -> j < 8 -> argType af j = aml_pArgTypeByteList ->
@@ -49,23 +59,33 @@ Definition S_args (fuel : nat) : Prop := forall ii op fl af curObj argIndex s g,
   (has_fl af -> has_parent g curObj) ->
   (argIndex < 8 -> argType af argIndex = aml_pArgTypeFieldList -> LastNum s curObj) ->
   shielded af argIndex ->
-  spec (N.of_nat fuel + argIndex < 16 * rem s + 11) (parseArgs fuel (op, fl, af) curObj argIndex) s g (fun res s' _ =>
-    Phi s' <= Phi s + 2 /\ (res = ROk -> Phi s' <= Phi s) /\ (res = RShort -> Phi s' <= Phi s + 1)).
+  spec (N.of_nat fuel < 8 * rem s + 3) (parseArgs fuel (op, fl, af) curObj argIndex) s g (fun res s' _ =>
+    Phi s' <= Phi s + 2 /\ (res = ROk -> Phi s' <= Phi s) /\ (res = RShort -> Phi s' <= Phi s + 1) /\
+    slack s s' (if oweb af argIndex then 1 else 0)).
+
+(** the argument types at which the first pass stops reading the arguments of an object *)
+Definition res_short (argTy : N) : Prop :=
+  argTy = aml_pArgTypeTermArg \/ argTy = aml_pArgTypeDataRefObj \/ argTy = aml_pArgTypeTermList.
 
 Definition S_arg (fuel : nat) : Prop := forall op fl af curObj argTy s g,
   FI s g -> glive g curObj -> room s -> argTy <> aml_pArgTypeByteList ->
   (argTy = aml_pArgTypeFieldList -> has_parent g curObj /\ LastNum s curObj) ->
-  spec (N.of_nat fuel < 16 * rem s + 2) (parseArg fuel (op, fl, af) curObj argTy) s g (fun '(a, res) s' g' =>
-    Phi s' <= Phi s + 2 /\ (res = ROk -> Phi s' <= Phi s) /\ (res = RShort -> Phi s' <= Phi s + 1) /\
+  spec (N.of_nat fuel < 8 * rem s + 2) (parseArg fuel (op, fl, af) curObj argTy) s g (fun '(a, res) s' g' =>
+    Phi s' <= Phi s + 2 /\ (res = ROk -> Phi s' <= Phi s /\ r_offset (p_r s) < r_offset (p_r s')) /\
+    (res = RShort -> Phi s' <= Phi s + 1) /\
     fresh_root g g' a /\
-    (argTy = aml_pArgTypeTermArg \/ argTy = aml_pArgTypeDataRefObj -> res = RShort) /\
+    (res_short argTy -> res = RShort) /\
     (argTy = aml_pArgTypeByteData ->
-       exists obj po v, a = Some obj /\ tget (p_tree s') obj = Some po /\ o_value po = Some (VNum v))).
+       exists obj po v, a = Some obj /\ tget (p_tree s') obj = Some po /\ o_value po = Some (VNum v)) /\
+    slack s s' (if argTy =? aml_pArgTypeTermList then 1 else 0) /\
+    (argTy = aml_pArgTypePkgLen -> res = ROk ->
+       (length (p_scopeStack s') + length (p_pkgEndStack s) + 1 <= length (p_scopeStack s) + length (p_pkgEndStack s'))%nat)).
 
 Definition S_target (fuel : nat) : Prop := forall s g,
   FI s g -> room s ->
-  spec (N.of_nat fuel < 16 * rem s + 1) (parseTarget fuel) s g (fun '(a, res) s' g' =>
-    Phi s' <= Phi s + 2 /\ (res = ROk -> Phi s' <= Phi s) /\ fresh_root g g' a /\ res <> RShort).
+  spec (N.of_nat fuel < 8 * rem s + 1) (parseTarget fuel) s g (fun '(a, res) s' g' =>
+    Phi s' <= Phi s + 2 /\ (res = ROk -> Phi s' <= Phi s /\ r_offset (p_r s) < r_offset (p_r s')) /\
+    fresh_root g g' a /\ res <> RShort /\ slack s s' 0).
 
 (** ---- helpers ---- *)
 Lemma at_Ext_FI s g s' g' k c :
@@ -88,6 +108,18 @@ Proof.
   intros H A G. split; auto. split; [eapply at_Ext; eauto|]. apply (at_Phi _ _ _ _ A).
 Qed.
 
+Lemma slack_at s s' k c : at_ s s' k c -> slack s s' 0.
+Proof. intros (_ & _ & _ & _ & A5 & A6). unfold slack. rewrite A5, A6. lia. Qed.
+
+Lemma slack_refl s : slack s s 0.
+Proof. unfold slack. lia. Qed.
+
+Lemma slack_trans a b c o1 o2 : slack a b o1 -> slack b c o2 -> slack a c (o1 + o2).
+Proof. unfold slack. lia. Qed.
+
+Lemma slack_weaken a b o o' : slack a b o -> (o <= o')%nat -> slack a b o'.
+Proof. unfold slack. lia. Qed.
+
 Lemma scope_top s g : FI s g -> p_scopeStack s <> [] ->
   exists top rest, p_scopeStack s = top :: rest /\ glive g top.
 Proof.
@@ -107,7 +139,7 @@ Proof.
   assert (A1 : at_ s (with_r s r1) 0 0) by (apply at_adv0; [apply at_refl; auto|exact Hadv]).
   destruct ok; cbn [negb].
   2:{ apply wp_ret. exists g. destruct (fin_at s g _ g 0 0 H1 A1 (gext_refl g)) as (F1 & F2 & F3).
-      split; auto. split; auto. split; [lia|discriminate]. }
+      split; auto. split; auto. split; [lia|]. split; [discriminate|apply (slack_at _ _ _ _ A1)]. }
   specialize (Hok eq_refl).
   assert (A1' : at_ s (with_r s r1) 1 0).
   { eapply at_r; [apply at_refl; auto|destruct Hadv as ((_ & E & _) & _); exact E|lia|destruct Hadv as (_ & _ & L); exact L]. }
@@ -129,7 +161,8 @@ Proof.
   intros t5 H5 Hext5 Hpf5 _ _.
   apply wp_ret. exists (astep g2 (OpAppend top p)).
   destruct (fin_at s g _ _ 1 1 H5 (at_pframe _ _ _ _ _ A4 Hpf5) Hext5) as (F1 & F2 & F3).
-  split; auto. split; auto. split; [lia|]. intros _. split; [lia|exact Hok].
+  split; auto. split; auto. split; [lia|]. split; [intros _; split; [lia|exact Hok]|].
+  apply (slack_at _ _ _ _ (at_pframe _ _ _ _ _ A4 Hpf5)).
 Qed.
 
 (** ---- parseTarget ---- *)
@@ -146,12 +179,14 @@ Proof.
     { eapply at_r; [apply at_refl; auto|destruct Hadv as ((_ & E & _) & _); exact E|lia|destruct Hadv as (_ & _ & L); exact L]. }
     destruct (nextOp =? aml_pOpZero).
     { apply wp_ret. exists g. destruct (fin_at s g _ g 1 0 H1 A1 (gext_refl g)) as (F1 & F2 & F3).
-      split; auto. split; auto. split; [lia|]. split; [intros _; lia|]. split; [exact I|discriminate]. }
+      split; auto. split; auto. split; [lia|]. split; [intros _; split; [lia|exact Hlt]|]. split; [exact I|].
+      split; [discriminate|apply (slack_at _ _ _ _ A1)]. }
     change (isArg nextOp || (nextOp =? aml_pOpRefOf) || (nextOp =? aml_pOpDerefOf) || (nextOp =? aml_pOpIndex) || (nextOp =? aml_pOpDebug))
       with (target_cond nextOp).
     destruct (target_cond nextOp) eqn:Etc.
     2:{ apply wp_ret. exists g. destruct (fin_at s g _ g 1 0 H1 A1 (gext_refl g)) as (F1 & F2 & F3).
-        split; auto. split; auto. split; [lia|]. split; [discriminate|]. split; [exact I|discriminate]. }
+        split; auto. split; auto. split; [lia|]. split; [discriminate|]. split; [exact I|].
+        split; [discriminate|apply (slack_at _ _ _ _ A1)]. }
     destruct (valid_op _ _ Hop Hidx Hbad) as (Hnk & Hidx').
     apply wp_bind. eapply new_step; [exact H1|exact Hnk| |].
     { unfold lp in *. pcbn. lia. }
@@ -171,12 +206,20 @@ Proof.
       assert (o3 = po) by congruence. subst o3.
       rewrite Hidx' in Hpidx. inversion Hpidx as [Hii].
       eapply (target_no_fieldlist nextOp idx op' fl af k); eauto. rewrite Hii. exact Hinfo.
+    + intros co Hco. unfold s3, s2 in Hco. pcbn_in Hco. rewrite get_tset, N.eqb_refl in Hco.
+      assert (Hg3' : tget t2 p = Some o3) by exact Hg3. rewrite Hg3' in Hco. cbn [option_map] in Hco.
+      inversion Hco; subst co. cbn [o_infoIndex set_amlOffset].
+      assert (o3 = po) by congruence. subst o3.
+      rewrite Hidx' in Hpidx. inversion Hpidx as [Hii]. rewrite <- Hii. exists nextOp. auto.
     + intros Hf. lia.
-    + intros res s' (g' & F1 & F2 & F3 & F4 & F5).
+    + intros res s' (g' & F1 & F2 & F3 & F4 & F5 & F6).
       apply wp_ret. exists g'. split; auto. split; [eapply Ext_trans; [eapply at_Ext; [exact A3|exact Hext2]|exact F2]|].
-      split; [lia|]. split; [intros Hr; specialize (F4 Hr); lia|]. split; [|exact F5].
-      cbn [fresh_root]. split; [exact Hfresh2|]. split; [apply (ge_live _ _ (ex_g _ _ _ _ F2)); exact Hlive2|].
-      eapply groot_ext; [apply (ex_g _ _ _ _ F2)|exact Hlive2|exact Hroot2].
+      split; [lia|]. split.
+      { intros Hr; specialize (F4 Hr). split; [lia|]. pose proof (ex_off _ _ _ _ F2) as Ho. destruct A3 as (_ & Ao & _). lia. }
+      split; [|split; [exact F5|]].
+      * cbn [fresh_root]. split; [exact Hfresh2|]. split; [apply (ge_live _ _ (ex_g _ _ _ _ F2)); exact Hlive2|].
+        eapply groot_ext; [apply (ex_g _ _ _ _ F2)|exact Hlive2|exact Hroot2].
+      * pose proof (slack_trans _ _ _ _ _ (slack_at _ _ _ _ A3) F6) as SL. exact SL.
   - destruct (Hnok eq_refl) as (Ho1 & _). clear Hok Hnok.
     apply wp_bind. apply wp_ru.
     destruct (rok_setOffset r1 (r_offset (p_r s)) (fi_rok _ _ H1)) as (Hrok2 & Hlen2).
@@ -205,10 +248,13 @@ Proof.
       assert (A6 : at_ s s6 1 1).
       { apply at_tset. replace 1 with (0 + 1) at 1 by reflexivity. apply at_adv; [exact A4|exact Hadv5|lia]. }
       destruct (fin_at s g _ g3 1 1 H6 A6 Hext3) as (F1 & F2 & F3).
-      split; auto. split; auto. split; [lia|]. split; [intros _; lia|]. cbn [fresh_root]. split; [auto|discriminate].
+      split; auto. split; auto. split; [lia|]. split; [intros _; split; [lia|]|].
+      { destruct A6 as (_ & Ao & _). lia. }
+      cbn [fresh_root]. split; [auto|]. split; [discriminate|apply (slack_at _ _ _ _ A6)].
     + assert (A6 : at_ s s6 0 1) by (apply at_tset; apply at_adv0; [exact A4|exact Hadv5]).
       destruct (fin_at s g _ g3 0 1 H6 A6 Hext3) as (F1 & F2 & F3).
-      split; auto. split; auto. split; [lia|]. split; [discriminate|]. cbn [fresh_root]. split; [auto|discriminate].
+      split; auto. split; auto. split; [lia|]. split; [discriminate|]. cbn [fresh_root]. split; [auto|].
+      split; [discriminate|apply (slack_at _ _ _ _ A6)].
 Qed.
 
 (** ---- parseNextObject ---- *)
@@ -226,7 +272,7 @@ Proof.
     { eapply at_r; [apply at_refl; auto|destruct Hadv as ((_ & E & _) & _); exact E|lia|destruct Hadv as (_ & _ & L); exact L]. }
     destruct (nextOp =? aml_pOpNoop).
     { apply wp_ret. exists g. destruct (fin_at s g _ g 1 0 H1 A1 (gext_refl g)) as (F1 & F2 & F3).
-      split; auto. split; auto. split; [lia|]. intros _. split; [lia|exact Hlt]. }
+      split; auto. split; auto. split; [lia|]. split; [intros _; split; [lia|exact Hlt]|apply (slack_at _ _ _ _ A1)]. }
     cbn [negb].
     destruct (valid_op _ _ Hop Hidx Hbad) as (Hnk & Hidx').
     apply wp_bind. eapply new_step; [exact H1|exact Hnk| |].
@@ -251,11 +297,19 @@ Proof.
     eapply wp_weaken; [apply (IHo p s4 g4 H4 Hlive4)| |].
     + unfold room in *. lia.
     + intros _ _ _ _ _ _ _. exists top. rewrite Hk4. apply in_or_app. right. left. reflexivity.
+    + intros co Hco. destruct (pframe_inv _ _ _ _ Hpf4 Hco) as (co3 & Hco3 & _ & Eii & _).
+      unfold s3, s2 in Hco3. pcbn_in Hco3. rewrite get_tset, N.eqb_refl in Hco3.
+      assert (Hg3' : tget t2 p = Some o3) by exact Hg3. rewrite Hg3' in Hco3. cbn [option_map] in Hco3.
+      inversion Hco3; subst co3. cbn [o_infoIndex set_amlOffset] in Eii.
+      assert (o3 = po) by congruence. subst o3.
+      rewrite Hidx' in Hpidx. inversion Hpidx as [Hii]. rewrite Eii, <- Hii. exists nextOp. auto.
     + intros Hf. lia.
-    + intros res s' (g' & F1 & F2 & F3 & F4 & _). exists g'. split; auto.
+    + intros res s' (g' & F1 & F2 & F3 & F4 & _ & F6). exists g'. split; auto.
       split; [eapply Ext_trans; [eapply at_Ext; [exact A4|exact Hext4]|exact F2]|].
-      split; [lia|]. intros Hr. specialize (F4 Hr). split; [lia|].
-      pose proof (ex_off _ _ _ _ F2) as Ho. destruct A4 as (_ & Ao & _). lia.
+      split; [lia|]. split.
+      * intros Hr. specialize (F4 Hr). split; [lia|].
+        pose proof (ex_off _ _ _ _ F2) as Ho. destruct A4 as (_ & Ao & _). lia.
+      * exact (slack_trans _ _ _ _ _ (slack_at _ _ _ _ A4) F6).
   - destruct (Hnok eq_refl) as (Ho1 & Hop). clear Hok Hnok. subst nextOp.
     change (0xffff =? aml_pOpNoop) with false. cbn [negb].
     assert (A1 : at_ s (with_r s r1) 0 0) by (apply at_adv0; [apply at_refl; auto|exact Hadv]).
@@ -264,10 +318,11 @@ Proof.
     + exact Hst.
     + unfold room in *. lia.
     + intros Hf. lia.
-    + intros res s' (g' & F1 & F2 & F3 & F4). exists g'. split; auto.
+    + intros res s' (g' & F1 & F2 & F3 & F4 & F7). exists g'. split; auto.
       split; [eapply Ext_trans; [eapply at_Ext; [exact A1|apply gext_refl]|exact F2]|].
-      split; [lia|]. intros Hr. destruct (F4 Hr) as (F5 & F6). split; [lia|].
-      pcbn_in F6. lia.
+      split; [lia|]. split.
+      * intros Hr. destruct (F4 Hr) as (F5 & F6). split; [lia|]. pcbn_in F6. lia.
+      * exact (slack_trans _ _ _ _ _ (slack_at _ _ _ _ A1) F7).
 Qed.
 
 (** ---- parseObjectArgs ---- *)
@@ -284,15 +339,16 @@ Qed.
 
 Lemma step_objargs fuel : S_args fuel -> S_objargs (S fuel).
 Proof.
-  intros IHa curObj s g H Hl Hroom Hfl. unfold spec. cbn [parseObjectArgs].
+  intros IHa curObj s g H Hl Hroom Hfl Hex. unfold spec. cbn [parseObjectArgs].
   destruct (FI_live_get _ _ _ H Hl) as (co & Hco & Hlco).
   apply wp_bind. apply wp_rdf. exists co. split; [exact Hco|].
   apply wp_bind, wp_get.
   assert (Fin : forall (res : pres) s', FI s' g /\ at_ s s' 0 0 ->
-     wp (N.of_nat (S fuel) < 16 * rem s + 12) (ret match res with RShort => ROk | r => r end) s'
-       (fun res s'0 => exists g', FI s'0 g' /\ Ext s g s'0 g' /\ Phi s'0 <= Phi s + 2 /\ (res = ROk -> Phi s'0 <= Phi s + 1) /\ res <> RShort)).
+     wp (N.of_nat (S fuel) < 8 * rem s + 4) (ret match res with RShort => ROk | r => r end) s'
+       (fun res s'0 => exists g', FI s'0 g' /\ Ext s g s'0 g' /\ Phi s'0 <= Phi s + 2 /\ (res = ROk -> Phi s'0 <= Phi s + 1) /\
+                                  res <> RShort /\ slack s s'0 0)).
   { intros res s' (F1 & F2). apply wp_ret. exists g. destruct (fin_at s g _ g 0 0 F1 F2 (gext_refl g)) as (G1 & G2 & G3).
-    split; auto. split; auto. split; [lia|]. split; [intros _; lia|]. destruct res; discriminate. }
+    split; auto. split; auto. split; [lia|]. split; [intros _; lia|]. split; [destruct res; discriminate|apply (slack_at _ _ _ _ F2)]. }
   apply wp_bind.
   destruct (o_opcode co =? aml_pOpBytePrefix).
   { eapply wp_weaken; [apply (objargs_num False curObj 1 s g H Hl)|intros []|]. intros res s' HQ. apply Fin. exact HQ. }
@@ -317,11 +373,13 @@ Proof.
   - intros _ Hfl0. exfalso. destruct (fieldlist_after_bytedata _ _ _ _ 0 Erow) as (Hc & _); [lia|exact Hfl0|lia].
   - intros j _ Hj Hbl. destruct (bytelist_shielded _ _ _ _ j Erow Hj Hbl) as (j' & Hj' & Hty). exists j'. split; [lia|]. split; auto.
   - intros Hf. lia.
-  - intros res s' (g' & F1 & F2 & F3 & F4 & F5). apply wp_ret. exists g'. split; auto. split; auto. split; [exact F3|].
-    split; [|destruct res; discriminate].
-    destruct res; try discriminate.
-    + intros _. specialize (F4 eq_refl). lia.
-    + intros _. apply F5. reflexivity.
+  - intros res s' (g' & F1 & F2 & F3 & F4 & F5 & F6). apply wp_ret. exists g'. split; auto. split; auto. split; [exact F3|].
+    split; [|split; [destruct res; discriminate|]].
+    + destruct res; try discriminate.
+      * intros _. specialize (F4 eq_refl). lia.
+      * intros _. apply F5. reflexivity.
+    + destruct (Hex co Hco) as (op0 & Hop0 & Hi0 & Hb0).
+      rewrite (termlist_after_pkglen op0 _ _ _ _ Hop0 Hi0 Hb0 Erow) in F6. exact F6.
 Qed.
 
 (** ---- parseArgs ---- *)
@@ -332,10 +390,11 @@ Lemma step_args fuel : S_arg fuel -> S_args fuel -> S_args (S fuel).
 Proof.
   intros IHarg IHargs ii op fl af curObj argIndex s g H Hl Hroom Hrow Hi9 Hfl HLI Hsh. unfold spec. cbn [parseArgs].
   pose proof (argCount_le8 af) as Hcnt.
+  assert (Hsl0 : forall o, slack s s o) by (intros o; unfold slack; lia).
   destruct (argCount af =? 0).
-  { apply wp_ret. exists g. split; auto. split; [apply Ext_refl|]. split; [lia|]. split; intros; lia. }
+  { apply wp_ret. exists g. split; auto. split; [apply Ext_refl|]. split; [lia|]. split; [intros; lia|]. split; [intros; lia|apply Hsl0]. }
   destruct (argCount af <=? argIndex) eqn:Ele.
-  { apply wp_ret. exists g. split; auto. split; [apply Ext_refl|]. split; [lia|]. split; intros; lia. }
+  { apply wp_ret. exists g. split; auto. split; [apply Ext_refl|]. split; [lia|]. split; [intros; lia|]. split; [intros; lia|apply Hsl0]. }
   apply N.leb_gt in Ele. assert (Hi8 : argIndex < 8) by lia.
   set (argTy := argType af argIndex) in *.
   assert (Hnbl : argTy <> aml_pArgTypeByteList).
@@ -343,21 +402,22 @@ Proof.
   apply wp_bind. eapply wp_weaken; [apply (IHarg op fl af curObj argTy s g H Hl Hroom Hnbl)| |].
   { intros E. split; [apply Hfl; exists argIndex; split; auto|apply HLI; auto]. }
   { intros Hf. lia. }
-  intros [a res] s1 (g1 & H1 & E1 & P1 & P2 & P3 & Hfr & Hta & Hbd).
+  intros [a res] s1 (g1 & H1 & E1 & P1 & P2 & P3 & Hfr & Hta & Hbd & Hsl & Hgain).
   pose proof (R_gwf _ _ (fi_R _ _ H)) as Hwf.
   pose proof (ex_g _ _ _ _ E1) as G1.
   (* the state after the optional append *)
   assert (Happ : forall (Q : unit -> pstate -> Prop),
     (forall s2 g2, FI s2 g2 -> Ext s g s2 g2 -> Phi s2 = Phi s1 -> rem s2 = rem s1 ->
+       p_scopeStack s2 = p_scopeStack s1 -> p_pkgEndStack s2 = p_pkgEndStack s1 ->
        (argTy = aml_pArgTypeByteData -> LastNum s2 curObj) -> Q tt s2) ->
-    wp (N.of_nat (S fuel) + argIndex < 16 * rem s + 11)
+    wp (N.of_nat (S fuel) < 8 * rem s + 3)
        (match a with Some a0 => appendM (Some curObj) a0 | None => ret tt end) s1 Q).
   { intros Q K. destruct a as [obj|].
     - destruct Hfr as (Hfresh & Hlive & Hroot).
       eapply (append_step _ curObj obj s1 g1 g); [exact H1|exact Hwf|exact G1|exact Hl|exact Hfresh|exact Hlive|exact Hroot|].
       intros t2 H2 G2 Hpf Hk _.
       apply K with (g2 := astep g1 (OpAppend curObj obj)); auto.
-      + destruct E1 as [_ L O (e & St)]. constructor; auto. exists e. exact St.
+      + destruct E1 as [_ L O (e & St) Pk Pd]. constructor; auto. exists e. exact St.
       + unfold Phi, lp, rem. pcbn. destruct Hpf as (L & _). rewrite L. reflexivity.
       + intros Ebd. destruct (Hbd Ebd) as (obj' & po & v & Ea & Hpo & Hv). inversion Ea; subst obj'.
         assert (Hl2 : glive (astep g1 (OpAppend curObj obj)) curObj) by (apply glive_set_kids; apply (ge_live _ _ G1); exact Hl).
@@ -371,11 +431,15 @@ Proof.
         exists co2, po', v. split; [exact Hco2|]. rewrite Hlast. split; [exact Hpo'|]. split; [exact Hlpo2|]. congruence.
     - apply wp_ret. apply K with (g2 := g1); auto.
       intros Ebd. destruct (Hbd Ebd) as (obj' & _ & _ & Ea & _). discriminate. }
-  apply wp_bind. apply Happ. intros s2 g2 H2 E2 EPhi Erem HLN.
+  apply wp_bind. apply Happ. intros s2 g2 H2 E2 EPhi Erem Esc Epk HLN.
+  assert (Hsl2 : slack s s2 (if argTy =? aml_pArgTypeTermList then 1 else 0)) by (unfold slack in *; rewrite Esc, Epk; exact Hsl).
+  pose proof (oweb_step af argIndex Hi8) as Howe. fold argTy in Howe.
   destruct (pres_eqb res ROk) eqn:Eres.
-  - assert (res = ROk) by (destruct res; try discriminate; reflexivity). subst res. specialize (P2 eq_refl).
+  - assert (res = ROk) by (destruct res; try discriminate; reflexivity). subst res. destruct (P2 eq_refl) as (P2a & P2b).
     assert (Ew : w8 (argIndex + 1) = argIndex + 1) by (unfold w8, two8; apply N.mod_small; lia). rewrite Ew.
     pose proof (ex_g _ _ _ _ E2) as G2.
+    assert (Hrem : rem s2 + 1 <= rem s).
+    { rewrite Erem. pose proof (ex_len _ _ _ _ E1) as L. pose proof (fi_rok _ _ H1) as (_ & _ & O). unfold rem. lia. }
     eapply wp_weaken; [apply (IHargs ii op fl af curObj (argIndex + 1) s2 g2 H2)| |].
     + apply (ge_live _ _ G2). exact Hl.
     + unfold room in *. lia.
@@ -386,12 +450,23 @@ Proof.
       destruct (fieldlist_after_bytedata _ _ _ _ _ Hrow Hi9' Hfl1) as (_ & Hb). replace (argIndex + 1 - 1) with argIndex in Hb by lia. exact Hb.
     + intros j Hj1 Hj8 Hbl. destruct (Hsh j) as (j' & Hj'1 & Hj'2 & Hty); [lia|exact Hj8|exact Hbl|].
       exists j'. split; [|split; auto]. destruct (N.eq_dec j' argIndex) as [->|Hne]; [|lia].
-      exfalso. fold argTy in Hty. specialize (Hta Hty). discriminate.
-    + intros Hf. pose proof (Ext_rem _ _ _ _ E2 H2). lia.
-    + intros res s' (g' & F1 & F2 & F3 & F4 & F5). exists g'. split; auto.
-      split; [eapply Ext_trans; eauto|]. split; [lia|]. split; intros Hr; [specialize (F4 Hr)|specialize (F5 Hr)]; lia.
+      exfalso. fold argTy in Hty. assert (Hs : res_short argTy) by (destruct Hty; [left|right; left]; assumption).
+      specialize (Hta Hs). discriminate.
+    + intros Hf. lia.
+    + intros res s' (g' & F1 & F2 & F3 & F4 & F5 & F6). exists g'. split; auto.
+      split; [eapply Ext_trans; eauto|]. split; [lia|]. split; [intros Hr; specialize (F4 Hr); lia|].
+      split; [intros Hr; specialize (F5 Hr); lia|].
+      rewrite Howe.
+      destruct (N.eqb_spec argTy aml_pArgTypeTermList) as [Etl|Etl].
+      { exfalso. assert (Hs : res_short argTy) by (right; right; exact Etl). specialize (Hta Hs). discriminate. }
+      destruct (N.eqb_spec argTy aml_pArgTypePkgLen) as [Epl|Epl].
+      { specialize (Hgain Epl eq_refl). rewrite <- Esc, <- Epk in Hgain. unfold slack in *.
+        destruct (oweb af (argIndex + 1)); lia. }
+      exact (slack_trans _ _ _ _ _ Hsl2 F6).
   - apply wp_ret. exists g2. split; auto. split; auto. split; [lia|].
-    split; intros Hr; [subst res; discriminate|specialize (P3 Hr); lia].
+    split; [intros Hr; subst res; discriminate|]. split; [intros Hr; specialize (P3 Hr); lia|].
+    rewrite Howe. destruct (argTy =? aml_pArgTypeTermList); [exact Hsl2|].
+    eapply slack_weaken; [exact Hsl2|]. destruct (argTy =? aml_pArgTypePkgLen); [lia|]. destruct (oweb af (argIndex + 1)); lia.
 Qed.
 
 (** ---- parseArg ---- *)
@@ -400,13 +475,17 @@ Lemma wp_pushPkgEnd P e s (Q : bool -> pstate -> Prop) :
   wp P (pushPkgEnd e) s Q.
 Proof. unfold wp, pushPkgEnd, bindM, setPkgEndM. cbn. destruct (setPkgEnd (p_r s) e); auto. Qed.
 
-Lemma at_pkgEnd s s' k c l : at_ s s' k c -> at_ s (with_pkgEndStack s' l) k c.
-Proof. intros A. exact A. Qed.
-
 Ltac kill_ty :=
   intros; subst;
   repeat match goal with
+  | H : res_short _ |- _ => unfold res_short in H
   | H : _ \/ _ |- _ => destruct H; subst
+  end;
+  try match goal with
+  | H : ?a = ?b |- _ => is_var a; subst a
+  end;
+  try match goal with
+  | H : ?a = ?b |- _ => discriminate H
   end;
   repeat match goal with
   | H : _ = true |- _ => vm_compute in H; discriminate H
@@ -422,22 +501,32 @@ Proof.
   { eapply wp_weaken; [apply (parseSimpleArg_spec False argTy s g H)|intros []|]. { lia. }
     intros [a res] s' (g' & F1 & F2 & F3 & F4 & F5 & F6). exists g'. split; auto. split; auto.
     pose proof (at_Ext_FI s g s' g' 0 1 F2 F1 F3) as PA. pose proof (ex_off _ _ _ _ F2) as Eoff.
-    split; [lia|]. split. { intros Hr. specialize (F5 Hr). pose proof (at_Ext_FI s g s' g' 1 1 F2 F1 F3). lia. }
+    split; [lia|]. split. { intros Hr. specialize (F5 Hr). pose proof (at_Ext_FI s g s' g' 1 1 F2 F1 F3). split; [lia|exact F5]. }
     split; [intros; lia|].
     split. { destruct a as [obj|]; [destruct F6 as (A & B & C & D); cbn; auto|exact I]. }
     split. { kill_ty. }
-    intros E. destruct a as [obj|].
-    - destruct F6 as (_ & _ & _ & D). destruct (D E) as (po & v & Hpo & Hv). exists obj, po, v. auto.
-    - destruct F6 as (_ & D). contradiction. }
+    split.
+    { intros E. destruct a as [obj|].
+      - destruct F6 as (_ & _ & _ & D). destruct (D E) as (po & v & Hpo & Hv). exists obj, po, v. auto.
+      - destruct F6 as (_ & D). contradiction. }
+    assert (Etl : (argTy =? aml_pArgTypeTermList) = false).
+    { destruct (N.eqb_spec argTy aml_pArgTypeTermList) as [E|E]; [|reflexivity]. subst argTy. vm_compute in Esimple. discriminate. }
+    rewrite Etl. split.
+    - unfold slack. rewrite F4. pose proof (ex_pk _ _ _ _ F2). lia.
+    - kill_ty. }
   apply N.eqb_neq in Hnbl. rewrite Hnbl.
   destruct (argTy =? aml_pArgTypePkgLen) eqn:Epl.
-  { apply wp_bind, wp_get.
+  { assert (Etl : (argTy =? aml_pArgTypeTermList) = false).
+    { apply N.eqb_eq in Epl. subst argTy. reflexivity. }
+    rewrite Etl.
+    apply wp_bind, wp_get.
     apply wp_bind. apply wp_pkglen; auto. intros pkgLen ok r1 Hadv Hok Hnok.
     assert (H1 : FI (with_r s r1) g) by (apply FI_adv; auto).
     assert (A1 : at_ s (with_r s r1) 0 0) by (apply at_adv0; [apply at_refl; auto|exact Hadv]).
     destruct ok; cbn [negb].
     2:{ apply wp_ret. exists g. destruct (fin_at s g _ g 0 0 H1 A1 (gext_refl g)) as (F1 & F2 & F3).
-        split; auto. split; auto. split; [lia|]. split; [discriminate|]. split; [discriminate|]. split; [exact I|]. split; kill_ty. }
+        split; auto. split; auto. split; [lia|]. split; [discriminate|]. split; [discriminate|]. split; [exact I|].
+        split; [kill_ty|]. split; [kill_ty|]. split; [apply (slack_at _ _ _ _ A1)|discriminate]. }
     destruct (Hok eq_refl) as (Hlt1 & Hpl).
     apply wp_bind, wp_get. rewrite (fi_skip _ _ H1). cbn [negb andb].
     destruct (hasFlag fl aml_pOpFlagDeferParsing).
@@ -456,29 +545,43 @@ Proof.
         assert (El : r_len (p_r s2) = r_len (p_r s)) by (destruct A2 as (L & _); exact L).
         destruct Hrok as (_ & _ & O). rewrite El. destruct (r_len (p_r s) <? o3) eqn:Ec; lia. }
       apply wp_ret. exists g. destruct (fin_at s g _ g 0 0 H3 A3 (gext_refl g)) as (F1 & F2 & F3).
-      split; auto. split; auto. split; [lia|]. split; [discriminate|]. split; [intros _; lia|]. split; [exact I|]. split; kill_ty.
+      split; auto. split; auto. split; [lia|]. split; [discriminate|]. split; [intros _; lia|]. split; [exact I|].
+      split; [kill_ty|]. split; [kill_ty|]. split; [apply (slack_at _ _ _ _ A3)|discriminate].
     - apply wp_bind. apply wp_pushPkgEnd.
       set (e := w32 (r_offset (p_r s) + pkgLen)).
       set (s2 := with_r (with_pkgEndStack (with_r s r1) (e :: p_pkgEndStack (with_r s r1))) (fst (setPkgEnd (p_r (with_r s r1)) e))).
       assert (H2 : FI s2 g).
       { apply FI_with_r; [apply FI_with_pkgEnd; exact H1|]. apply rok_setPkgEnd. apply (fi_rok _ _ H1). }
-      assert (A2 : at_ s s2 0 0).
-      { destruct (setPkgEnd_off (p_r (with_r s r1)) e) as (Eo & El).
-        eapply at_r; [apply at_pkgEnd; exact A1|exact El| |].
-        - rewrite Eo. destruct A1 as (_ & O & _). exact O.
-        - rewrite Eo, El. destruct A1 as (_ & _ & O & _). exact O. }
-      apply wp_ret. exists g. destruct (fin_at s g _ g 0 0 H2 A2 (gext_refl g)) as (F1 & F2 & F3).
-      split; auto. split; auto. split; [lia|]. split; [intros _; lia|]. split; [intros _; lia|]. split; [exact I|]. split; kill_ty. }
+      destruct (setPkgEnd_off (p_r (with_r s r1)) e) as (Eo & El).
+      destruct A1 as (B1 & B2 & B3 & B4 & B5 & B6).
+      assert (E2 : Ext s g s2 g).
+      { constructor; [apply gext_refl| | |exists []| |]; unfold s2; pcbn; pcbn_in Eo; pcbn_in El; pcbn_in B1; pcbn_in B2.
+        - rewrite El. exact B1.
+        - rewrite Eo. lia.
+        - reflexivity.
+        - cbn [length]. lia.
+        - cbn [length]. rewrite Eo. lia. }
+      assert (P2 : Phi s2 + 4 <= Phi s).
+      { unfold Phi, lp, rem, s2. pcbn. pcbn_in Eo. pcbn_in El. pcbn_in B1. pcbn_in B3. rewrite Eo, El. unfold lp in B4. pcbn_in B4. lia. }
+      apply wp_ret. exists g. split; auto. split; auto. split; [lia|].
+      split. { intros _. split; [lia|]. unfold s2. pcbn. pcbn_in Eo. rewrite Eo. exact Hlt1. }
+      split; [intros _; lia|]. split; [exact I|]. split; [kill_ty|]. split; [kill_ty|].
+      split; [unfold slack, s2; pcbn; cbn [length]; lia|]. intros _ _. unfold s2. pcbn. cbn [length]. lia. }
   destruct (argTy =? aml_pArgTypeFieldList) eqn:Efl.
   { apply N.eqb_eq in Efl. destruct (Hfl Efl) as ((par & Hpar) & (co & lo & v & HLN)).
     apply wp_bind. eapply wp_weaken; [apply (parseFieldElements_spec curObj par s g H Hpar Hroom)|intros []|].
     { exists co, lo, v. exact HLN. }
-    intros res s' (g' & F1 & F2 & (F3 & F4 & F5)). apply wp_ret. exists g'. split; auto. split; auto.
+    intros res s' (g' & F1 & F2 & (F3 & F4 & F5 & F6 & F7)). apply wp_ret. exists g'. split; auto. split; auto.
     split; [exact F3|]. split; [intros Hr; contradiction|]. split; [intros Hr; specialize (F4 Hr); lia|]. split; [exact I|].
-    subst argTy. split; [intros [E|E]; discriminate E|intros E; discriminate E]. }
+    subst argTy. split; [kill_ty|]. split; [intros E; discriminate E|]. split; [|intros E; discriminate E].
+    change (aml_pArgTypeFieldList =? aml_pArgTypeTermList) with false. unfold slack. rewrite F6, F7. lia. }
   destruct ((argTy =? aml_pArgTypeTermArg) || (argTy =? aml_pArgTypeDataRefObj)) eqn:Eta.
-  { apply wp_bind, wp_get. rewrite (fi_skip _ _ H). apply wp_ret. exists g. split; auto. split; [apply Ext_refl|].
-    split; [lia|]. split; [discriminate|]. split; [intros _; lia|]. split; [exact I|]. split; [reflexivity|kill_ty]. }
+  { assert (Etl : (argTy =? aml_pArgTypeTermList) = false).
+    { destruct (N.eqb_spec argTy aml_pArgTypeTermList) as [E|E]; [|reflexivity]. subst argTy. vm_compute in Eta. discriminate. }
+    rewrite Etl.
+    apply wp_bind, wp_get. rewrite (fi_skip _ _ H). apply wp_ret. exists g. split; auto. split; [apply Ext_refl|].
+    split; [lia|]. split; [discriminate|]. split; [intros _; lia|]. split; [exact I|]. split; [reflexivity|].
+    split; [kill_ty|]. split; [apply slack_refl|kill_ty]. }
   destruct (argTy =? aml_pArgTypeTermList) eqn:Etl.
   { apply wp_bind. eapply new_step; [exact H|apply (newokb_sound aml_pOpIntScopeBlock eq_refl)|lia|].
     intros p t2 g2 po H2 Hext2 Hfresh2 Hlive2 Hroot2 Hkids2 Hpo _ _ _ Hl2 _.
@@ -492,17 +595,25 @@ Proof.
     apply wp_bind. apply wp_rdf. exists o4. split; [exact Hg4|].
     rewrite (R_index _ _ (fi_R _ _ H3) _ _ Hg4).
     apply wp_bind. apply wp_scopeEnter.
-    assert (H5 : FI (with_scopeStack s3 (p :: p_scopeStack s3)) g2).
+    set (s5 := with_scopeStack s3 (p :: p_scopeStack s3)).
+    assert (H5 : FI s5 g2).
     { apply FI_with_scope; [exact H3|]. constructor; [exact Hlive2|apply (fi_scopes _ _ H3)]. }
     apply wp_bind, wp_get. rewrite (fi_skip _ _ H5). cbn [negb].
-    apply wp_ret. exists g2. destruct (fin_at s g _ g2 0 1 H5 (at_scope _ _ _ _ p A3) Hext2) as (F1 & F2 & F3).
-    split; auto. split; auto. split; [lia|]. split; [discriminate|]. split; [intros _; lia|].
-    split; [cbn [fresh_root]; auto|]. split; kill_ty. }
+    destruct (at_Phi _ _ _ _ A3) as (P3 & _).
+    destruct A3 as (B1 & B2 & B3 & B4 & B5 & B6).
+    apply wp_ret. exists g2. split; [exact H5|]. split.
+    { constructor; [exact Hext2|exact B1|unfold s5; pcbn; lia|exists [p]; unfold s5; pcbn; rewrite B5; reflexivity
+                   |unfold s5; pcbn; rewrite B6; lia|unfold s5; pcbn; rewrite B6; lia]. }
+    assert (EP : Phi s5 = Phi s3) by reflexivity.
+    split; [lia|]. split; [discriminate|]. split; [intros _; lia|].
+    split; [cbn [fresh_root]; auto|]. split; [reflexivity|]. split; [kill_ty|].
+    split; [unfold slack, s5; pcbn; rewrite B5, B6; cbn [length]; lia|kill_ty]. }
   (* a target *)
   eapply wp_weaken; [apply (IHt s g H Hroom)| |].
   - intros Hf. lia.
-  - intros [a res] s' (g' & F1 & F2 & F3 & F4 & F5 & F6). exists g'. split; auto. split; auto.
-    split; [exact F3|]. split; [exact F4|]. split; [intros Hr; contradiction|]. split; [exact F5|]. split; kill_ty.
+  - intros [a res] s' (g' & F1 & F2 & F3 & F4 & F5 & F6 & F7). exists g'. split; auto. split; auto.
+    split; [exact F3|]. split; [exact F4|]. split; [intros Hr; contradiction|]. split; [exact F5|].
+    split; [kill_ty|]. split; [kill_ty|]. split; [exact F7|kill_ty].
 Qed.
 
 (** ---- the mutual block ---- *)
@@ -524,16 +635,17 @@ Proof. apply (block_all fuel). Qed.
 
 (** ---- the loops of parseObjectList ---- *)
 Lemma inner_spec : forall fuel s g, FI s g -> p_scopeStack s <> [] -> room s ->
-  spec (N.of_nat fuel < 16 * rem s + 3) (objectList_inner fuel) s g (fun ok s' _ =>
-    Phi s' <= Phi s + 2 /\ (ok = true -> Phi s' <= Phi s) /\ p_scopeStack s' <> []).
+  spec (N.of_nat fuel < 8 * rem s + 3) (objectList_inner fuel) s g (fun ok s' _ =>
+    Phi s' <= Phi s + 2 /\ (ok = true -> Phi s' <= Phi s) /\ p_scopeStack s' <> [] /\ slack s s' 0).
 Proof.
   induction fuel as [|fuel IH]; intros s g H Hst Hroom; unfold spec; cbn [objectList_inner].
   { apply wp_outOfFuel. change (N.of_nat 0) with 0. lia. }
   apply wp_bind, wp_get. destruct (eof (p_r s)).
-  { apply wp_ret. exists g. split; auto. split; [apply Ext_refl|]. split; [lia|]. split; [intros _; lia|exact Hst]. }
+  { apply wp_ret. exists g. split; auto. split; [apply Ext_refl|]. split; [lia|]. split; [intros _; lia|].
+    split; [exact Hst|apply slack_refl]. }
   apply wp_bind. eapply wp_weaken; [apply (parseNextObject_spec fuel s g H Hst Hroom)| |].
   { intros Hf. lia. }
-  intros res s1 (g1 & H1 & E1 & P1 & P2).
+  intros res s1 (g1 & H1 & E1 & P1 & P2 & SL1).
   assert (Hst1 : p_scopeStack s1 <> []).
   { destruct (ex_scopes _ _ _ _ E1) as (e & Es). rewrite Es. intros E. apply app_eq_nil in E. destruct E as (_ & E). contradiction. }
   destruct (pres_eqb res ROk) eqn:Eres.
@@ -543,9 +655,10 @@ Proof.
     eapply wp_weaken; [apply (IH s1 g1 H1 Hst1)| |].
     + unfold room in *. lia.
     + intros Hf. lia.
-    + intros ok s' (g' & F1 & F2 & F3 & F4 & F5). exists g'. split; auto. split; [eapply Ext_trans; eauto|].
-      split; [lia|]. split; [intros Hr; specialize (F4 Hr); lia|exact F5].
-  - apply wp_ret. exists g1. split; auto. split; auto. split; [lia|]. split; [discriminate|exact Hst1].
+    + intros ok s' (g' & F1 & F2 & F3 & F4 & F5 & F6). exists g'. split; auto. split; [eapply Ext_trans; eauto|].
+      split; [lia|]. split; [intros Hr; specialize (F4 Hr); lia|]. split; [exact F5|].
+      exact (slack_trans _ _ _ _ _ SL1 F6).
+  - apply wp_ret. exists g1. split; auto. split; auto. split; [lia|]. split; [discriminate|]. split; [exact Hst1|exact SL1].
 Qed.
 
 Lemma wp_scopeExit P s x rest (Q : unit -> pstate -> Prop) :
@@ -553,39 +666,63 @@ Lemma wp_scopeExit P s x rest (Q : unit -> pstate -> Prop) :
 Proof. intros E H. unfold wp, scopeExit. rewrite E. exact H. Qed.
 
 Lemma popPkgEnd_spec P s g : FI s g ->
-  wp P popPkgEnd s (fun _ s' => FI s' g /\ Phi s' = Phi s /\ p_scopeStack s' = p_scopeStack s).
+  wp P popPkgEnd s (fun _ s' => FI s' g /\ Phi s' = Phi s /\ rem s' = rem s /\ p_scopeStack s' = p_scopeStack s /\
+                                p_pkgEndStack s' = tl (p_pkgEndStack s)).
 Proof.
   intros H. unfold wp, popPkgEnd.
-  destruct (match p_pkgEndStack s with [] => [] | _ :: rest => rest end) as [|top rest'] eqn:E.
-  - split; [apply FI_with_pkgEnd; exact H|]. split; reflexivity.
+  assert (Etl : match p_pkgEndStack s with [] => [] | _ :: rest => rest end = tl (p_pkgEndStack s)) by (destruct (p_pkgEndStack s); reflexivity).
+  rewrite Etl.
+  destruct (tl (p_pkgEndStack s)) as [|top rest'] eqn:E.
+  - split; [apply FI_with_pkgEnd; exact H|]. repeat split; reflexivity.
   - destruct (setPkgEnd_off (p_r (with_pkgEndStack s (top :: rest'))) top) as (Eo & El).
     split; [apply FI_with_r; [apply FI_with_pkgEnd; exact H|apply rok_setPkgEnd; apply (fi_rok _ _ H)]|].
-    split; [|reflexivity]. unfold Phi, lp, rem. pcbn. pcbn_in Eo. pcbn_in El. rewrite Eo, El. reflexivity.
+    unfold Phi, lp, rem. pcbn. pcbn_in Eo. pcbn_in El. rewrite Eo, El. repeat split; reflexivity.
 Qed.
 
+(** the outer loop: the scope stack is never deeper than the pkgEnd stack, so every iteration pops a package end;
+    pushes are paid for by consumed bytes *)
+Definition list_need (s : pstate) : N := 8 * rem s + N.of_nat (length (p_pkgEndStack s)) + 4.
+
 Lemma list_spec : forall fuel s g, FI s g -> room s ->
-  wp True (parseObjectList fuel) s (fun _ s' => exists g', FI s' g').
+  (length (p_scopeStack s) <= length (p_pkgEndStack s))%nat ->
+  wp (N.of_nat fuel < list_need s) (parseObjectList fuel) s (fun _ s' => exists g', FI s' g' /\ gext g g').
 Proof.
-  induction fuel as [|fuel IH]; intros s g H Hroom; cbn [parseObjectList].
-  { apply wp_outOfFuel. exact I. }
+  induction fuel as [|fuel IH]; intros s g H Hroom HJ; cbn [parseObjectList].
+  { apply wp_outOfFuel. unfold list_need. change (N.of_nat 0) with 0. lia. }
   apply wp_bind, wp_get. destruct (p_scopeStack s) as [|x rest] eqn:Est.
-  { apply wp_ret. exists g. exact H. }
+  { apply wp_ret. exists g. split; [exact H|apply gext_refl]. }
   apply wp_bind. eapply wp_weaken; [apply (inner_spec fuel s g H)| |].
-  { rewrite Est. discriminate. } { exact Hroom. } { intros _. exact I. }
-  intros ok s1 (g1 & H1 & E1 & P1 & P2 & Hst1).
-  destruct ok; cbn [negb]; [|apply wp_ret; exists g1; exact H1].
+  { rewrite Est. discriminate. } { exact Hroom. } { intros Hf. unfold list_need. lia. }
+  intros ok s1 (g1 & H1 & E1 & P1 & P2 & Hst1 & SL1).
+  pose proof (ex_g _ _ _ _ E1) as G1.
+  destruct ok; cbn [negb]; [|apply wp_ret; exists g1; split; [exact H1|exact G1]].
   specialize (P2 eq_refl).
   apply wp_bind, wp_get. apply wp_bind, wp_get.
   destruct (p_scopeStack s1) as [|y rest1] eqn:Est1; [contradiction|].
-  assert (Hcont : forall s2, FI s2 g1 -> Phi s2 = Phi s1 ->
-     wp True (popPkgEnd ;;; parseObjectList fuel) s2 (fun _ s' => exists g', FI s' g')).
-  { intros s2 H2 EP. apply wp_bind. eapply wp_weaken; [apply (popPkgEnd_spec True s2 g1 H2)|auto|].
-    intros _ s3 (H3 & EP3 & _). apply (IH s3 g1 H3). unfold room in *. lia. }
+  assert (HJ1 : (length (y :: rest1) <= length (p_pkgEndStack s1))%nat).
+  { unfold slack in SL1. rewrite Est1, Est in SL1. cbn [length] in *. lia. }
+  pose proof (ex_paid _ _ _ _ E1) as Hpaid. pose proof (ex_len _ _ _ _ E1) as Hlen. pose proof (ex_off _ _ _ _ E1) as Hoff.
+  pose proof (fi_rok _ _ H1) as (_ & _ & O1).
+  assert (Hcont : forall s2, FI s2 g1 -> Phi s2 = Phi s1 -> rem s2 = rem s1 -> p_pkgEndStack s2 = p_pkgEndStack s1 ->
+     (length (p_scopeStack s2) + 1 <= length (p_pkgEndStack s1))%nat \/
+     (length (p_scopeStack s2) <= length (p_pkgEndStack s1))%nat /\ length (p_scopeStack s2) = length rest1 ->
+     wp (N.of_nat (S fuel) < list_need s) (popPkgEnd ;;; parseObjectList fuel) s2 (fun _ s' => exists g', FI s' g' /\ gext g g')).
+  { intros s2 H2 EP ER EPk HJ2. apply wp_bind. eapply wp_weaken; [apply (popPkgEnd_spec False s2 g1 H2)|intros []|].
+    intros _ s3 (H3 & EP3 & ER3 & ESc3 & EPk3).
+    assert (Hpk3 : (length (p_pkgEndStack s3) + 1 = length (p_pkgEndStack s1))%nat).
+    { rewrite EPk3, EPk. cbn [length] in HJ1. destruct (p_pkgEndStack s1); cbn [length tl] in *; lia. }
+    eapply wp_weaken; [apply (IH s3 g1 H3)| |].
+    - unfold room in *. lia.
+    - rewrite ESc3. cbn [length] in HJ1. destruct HJ2 as [HJ2|(HJ2 & HJ3)]; lia.
+    - unfold list_need. rewrite ER3, ER. unfold rem. intros Hf. lia.
+    - intros r s' (g' & F1 & F2). exists g'. split; [exact F1|eapply gext_trans; eauto]. }
   apply wp_bind.
-  destruct (Nat.eqb (length (p_pkgEndStack s1)) (length (y :: rest1))).
-  - eapply wp_scopeExit; [exact Est1|]. apply Hcont; [|reflexivity].
-    apply FI_with_scope; [exact H1|]. pose proof (fi_scopes _ _ H1) as F. rewrite Est1 in F. inversion F; auto.
-  - apply wp_ret. apply Hcont; [exact H1|reflexivity].
+  destruct (Nat.eqb_spec (length (p_pkgEndStack s1)) (length (y :: rest1))) as [Eeq|Ene].
+  - eapply wp_scopeExit; [exact Est1|]. apply Hcont; [|reflexivity|reflexivity|reflexivity|].
+    + apply FI_with_scope; [exact H1|]. pose proof (fi_scopes _ _ H1) as F. rewrite Est1 in F. inversion F; auto.
+    + right. pcbn. cbn [length] in *. split; [lia|reflexivity].
+  - apply wp_ret. apply Hcont; [exact H1|reflexivity|reflexivity|reflexivity|].
+    left. rewrite Est1. cbn [length] in *. lia.
 Qed.
 
 (** ---- the statements for Props/C12.v ---- *)
@@ -602,40 +739,47 @@ Proof. unfold init_reader, setPkgEnd, setOffset. cbn [r_len r_data r_pkgEnd r_of
 Lemma init_FI tree g earlier handle data :
   R tree g -> info_valid tree -> glive g 0 -> image_small data ->
   N.of_nat (length (t_pool tree)) + 4 * N.of_nat (length data) + 4 <= InvalidIndex ->
-  let s := with_scopeStack (init_state tree earlier handle data) [0] in FI s g /\ room s.
+  let s := with_scopeStack (init_state tree earlier handle data) [0] in
+  FI s g /\ room s /\ (length (p_scopeStack s) <= length (p_pkgEndStack s))%nat /\
+  list_need s <= 8 * N.of_nat (length data) + 5.
 Proof.
   intros HR Hi H0 (Hb & Hl) Hcap. unfold init_state. rewrite init_reader_val.
   set (n := N.of_nat (length data)) in *.
   unfold setPkgEnd. cbn [r_len r_data r_pkgEnd r_offset]. rewrite N.ltb_irrefl. cbn [fst].
-  split.
+  split; [|split; [|split]].
   - constructor; pcbn; auto.
     unfold rok, reader_wf, small_table, set_pkgEnd_raw. cbn [r_len r_data r_pkgEnd r_offset].
     split; [split; [reflexivity|split; [lia|split; [unfold two32 in *; lia|exact Hb]]]|].
     split; [exact Hl|]. destruct (n <? aml_sizeofSDTHeader) eqn:E; [lia|]. apply N.ltb_ge in E. exact E.
   - unfold room, Phi, lp, rem. pcbn. unfold set_pkgEnd_raw. cbn [r_len r_offset]. fold n. lia.
+  - pcbn. cbn [length]. lia.
+  - unfold list_need, rem. pcbn. unfold set_pkgEnd_raw. cbn [r_len r_offset length]. fold n. lia.
 Qed.
 
+(** the first pass returns - no panic, and no exhausted fuel once the fuel is 8 units per byte of the table plus 5 -
+    and leaves a pool that satisfies the invariant again *)
 Theorem first_pass_never_panics : forall tree g earlier handle data fuel,
   R tree g -> info_valid tree -> glive g 0 -> image_small data ->
   N.of_nat (length (t_pool tree)) + 4 * N.of_nat (length data) + 4 <= InvalidIndex ->
   match first_pass fuel (init_state tree earlier handle data) with
   | Ok (_, s') => exists g', R (p_tree s') g' /\ info_valid (p_tree s')
   | Panic => False
-  | OutOfFuel => True
+  | OutOfFuel => N.of_nat fuel < 8 * N.of_nat (length data) + 5
   end.
 Proof.
   intros tree g earlier handle data fuel HR Hi H0 Him Hcap.
-  destruct (init_FI tree g earlier handle data HR Hi H0 Him Hcap) as (HFI & Hroom).
-  pose proof (list_spec fuel _ g HFI Hroom) as W. unfold wp in W.
+  destruct (init_FI tree g earlier handle data HR Hi H0 Him Hcap) as (HFI & Hroom & HJ & Hneed).
+  pose proof (list_spec fuel _ g HFI Hroom HJ) as W. unfold wp in W.
   unfold first_pass, bindM, scopeEnter.
   destruct (parseObjectList fuel _) as [[res s']| |]; auto.
-  destruct W as (g' & F). exists g'. split; [apply (fi_R _ _ F)|apply (fi_info _ _ F)].
+  - destruct W as (g' & F & _). exists g'. split; [apply (fi_R _ _ F)|apply (fi_info _ _ F)].
+  - lia.
 Qed.
 
 (** one top-level object (and the inner loop of parseObjectList) never panics and never runs out of a fuel
-    of 16 units per byte left *)
+    of 8 units per byte left *)
 Theorem first_pass_object_total : forall fuel s g,
-  FI s g -> p_scopeStack s <> [] -> room s -> 16 * rem s + 2 <= N.of_nat fuel ->
+  FI s g -> p_scopeStack s <> [] -> room s -> 8 * rem s + 2 <= N.of_nat fuel ->
   exists res s' g', parseNextObject fuel s = Ok (res, s') /\ FI s' g'.
 Proof.
   intros fuel s g H Hst Hroom Hf. pose proof (parseNextObject_spec fuel s g H Hst Hroom) as W. unfold spec, wp in W.
@@ -644,7 +788,7 @@ Proof.
 Qed.
 
 Theorem first_pass_list_total : forall fuel s g,
-  FI s g -> p_scopeStack s <> [] -> room s -> 16 * rem s + 3 <= N.of_nat fuel ->
+  FI s g -> p_scopeStack s <> [] -> room s -> 8 * rem s + 3 <= N.of_nat fuel ->
   exists ok s' g', objectList_inner fuel s = Ok (ok, s') /\ FI s' g'.
 Proof.
   intros fuel s g H Hst Hroom Hf. pose proof (inner_spec fuel s g H Hst Hroom) as W. unfold spec, wp in W.
@@ -675,13 +819,41 @@ Proof.
   rewrite E in W. exact W.
 Qed.
 
+(** the first pass terminates: 8 units of fuel per byte of the table plus 5 are enough - in particular the fuel
+    ParseAML gives it, [parse_fuel] of the table length plus the pool size *)
+Corollary first_pass_terminates : forall tree g earlier handle data fuel,
+  R tree g -> info_valid tree -> glive g 0 ->
+  Forall (fun b => b < 256) data -> N.of_nat (length data) + 0x10000400 <= two32 ->
+  N.of_nat (length (t_pool tree)) + 4 * N.of_nat (length data) + 4 <= InvalidIndex ->
+  8 * N.of_nat (length data) + 5 <= N.of_nat fuel ->
+  exists res s' g', first_pass fuel (init_state tree earlier handle data) = Ok (res, s') /\ R (p_tree s') g'.
+Proof.
+  intros tree g earlier handle data fuel HR Hi H0 Hb Hl Hcap Hf.
+  pose proof (first_pass_never_panics tree g earlier handle data fuel HR Hi H0 (conj Hb Hl) Hcap) as W.
+  destruct (first_pass _ _) as [[res s']| |].
+  - destruct W as (g' & F & _). eauto.
+  - contradiction.
+  - exfalso. lia.
+Qed.
+
+Corollary first_pass_terminates_parse_fuel : forall tree g earlier handle data,
+  R tree g -> info_valid tree -> glive g 0 ->
+  Forall (fun b => b < 256) data -> N.of_nat (length data) + 0x10000400 <= two32 ->
+  N.of_nat (length (t_pool tree)) + 4 * N.of_nat (length data) + 4 <= InvalidIndex ->
+  exists res s' g', first_pass (parse_fuel (length data + length (t_pool tree))) (init_state tree earlier handle data) = Ok (res, s') /\
+                    R (p_tree s') g'.
+Proof.
+  intros tree g earlier handle data HR Hi H0 Hb Hl Hcap.
+  apply (first_pass_terminates tree g earlier handle data _ HR Hi H0 Hb Hl Hcap). unfold parse_fuel. lia.
+Qed.
+
 (** with the invariant spelled out *)
 Corollary first_pass_fuel : forall fuel s g,
   R (p_tree s) g -> info_valid (p_tree s) ->
   reader_wf (p_r s) -> r_len (p_r s) + 0x10000400 <= two32 -> r_offset (p_r s) <= r_len (p_r s) ->
   p_allBlocks s = false -> Forall (glive g) (p_scopeStack s) -> p_scopeStack s <> [] ->
   N.of_nat (length (t_pool (p_tree s))) + 4 * (r_len (p_r s) - r_offset (p_r s)) + 4 <= InvalidIndex ->
-  16 * (r_len (p_r s) - r_offset (p_r s)) + 3 <= N.of_nat fuel ->
+  8 * (r_len (p_r s) - r_offset (p_r s)) + 3 <= N.of_nat fuel ->
   (exists res s' g', parseNextObject fuel s = Ok (res, s') /\ R (p_tree s') g') /\
   (exists ok s' g', objectList_inner fuel s = Ok (ok, s') /\ R (p_tree s') g').
 Proof.
